@@ -297,7 +297,9 @@ func (x *Exec) symValue(st *State, t types.Type, name, prov string) Value {
 		c := FreshSeq(name)
 		x.assumeElems(st, u.Elem(), c)
 		arr := x.newArray(st, u.Elem(), c, name, prov)
-		return VSlice{Arr: arr, Lo: IntC(0), Hi: Len(c), Cap: Len(c), IsNil: FreshBool(name + ".isnil"), Elem: u.Elem()}
+		cp := FreshInt(name + ".cap")
+		st.assume(Le(Len(c), cp))
+		return VSlice{Arr: arr, Lo: IntC(0), Hi: Len(c), Cap: cp, IsNil: FreshBool(name + ".isnil"), Elem: u.Elem()}
 	case *types.Pointer:
 		if hasCodecMethods(u.Elem()) {
 			o := newObj("dyn", u.Elem(), name, prov)
